@@ -408,4 +408,447 @@ theorem decode_iff_ref (now : Nat) (rx : Rx) (p : Bytes) (op : Op) :
     rw [hmsg]
     rfl
 
+/-! ### the fixed header `EncodeDHCP4` writes, under the reference reading -/
+
+theorem field_mid (pre x post : Bytes) : field (pre ++ x ++ post) pre.length x.length = x := by
+  unfold field
+  rw [List.append_assoc, List.drop_left, List.take_left]
+
+theorem field_at {L pre x post : Bytes} {k n : Nat} (e : L = pre ++ x ++ post) (hk : pre.length = k) (hn : x.length = n) :
+    field L k n = x := by
+  subst e hk hn
+  exact field_mid _ _ _
+
+theorem at_of_field {L x : Bytes} {k n : Nat} (h : field L k n = x) (i j : Nat) (hi : i < x.length) (hj : j = k + i) :
+    at_ L j = at_ x i := by
+  subst hj
+  rw [← PV.Lemmas.at_drop, ← h]
+  unfold field at_
+  have hn : i < n := by
+    rw [← h] at hi
+    unfold field at hi
+    rw [List.length_take] at hi
+    omega
+  rw [List.getElem?_take_of_lt hn]
+
+/-- the 240 bytes `EncodeDHCP4` leaves in front of the options for a BOOTREPLY with cleared flags: `x` = transaction id,
+    `ci` / `yi` = ciaddr / yiaddr, `ch` = the six bytes of the hardware address -/
+def hdrW (x ci yi ch : Bytes) : Bytes :=
+  [2, 1, 6, 0] ++ x ++ [0, 0] ++ [0, 0] ++ ci ++ yi ++ zeros 8 ++ (ch ++ zeros 10) ++ zeros 192 ++ [99, 130, 83, 99]
+
+theorem hdrW_length (x ci yi ch : Bytes) (hx : x.length = 4) (hci : ci.length = 4) (hyi : yi.length = 4) (hch : ch.length = 6) :
+    (hdrW x ci yi ch).length = 240 := by
+  simp only [hdrW, List.length_append, List.length_cons, List.length_nil, zeros, List.length_replicate, hx, hci, hyi, hch]
+
+def be4of (x : Bytes) : Nat := ((at_ x 0 * 256 + at_ x 1) * 256 + at_ x 2) * 256 + at_ x 3
+
+theorem zeros_add (a b : Nat) : zeros (a + b) = zeros a ++ zeros b := by
+  unfold zeros; rw [List.replicate_append_replicate]
+
+set_option linter.unusedSimpArgs false in
+/-- **the reference reads back the header the encoder wrote, field by field** -/
+theorem fixed_hdrW (x ci yi ch rest : Bytes) (hx : x.length = 4) (hci : ci.length = 4) (hyi : yi.length = 4)
+    (hch : ch.length = 6) :
+    fixed (hdrW x ci yi ch ++ rest) =
+      { op := 2, htype := 1, hlen := 6, hops := 0, xid := x, secs := 0, flags := 0, ciaddr := be4of ci, yiaddr := be4of yi,
+        siaddr := 0, giaddr := 0, chaddr := ch, chpad := zeros 10, sname := zeros 64, file := zeros 128, cookie := magic } := by
+  have f0 : field (hdrW x ci yi ch ++ rest) 0 4 = [2, 1, 6, 0] :=
+    field_at (pre := []) (post := x ++ [0, 0] ++ [0, 0] ++ ci ++ yi ++ zeros 8 ++ (ch ++ zeros 10) ++ zeros 192 ++ [99, 130, 83, 99] ++ rest)
+      (by simp [hdrW, List.append_assoc]) rfl rfl
+  have f4 : field (hdrW x ci yi ch ++ rest) 4 4 = x :=
+    field_at (pre := [2, 1, 6, 0]) (post := [0, 0] ++ [0, 0] ++ ci ++ yi ++ zeros 8 ++ (ch ++ zeros 10) ++ zeros 192 ++ [99, 130, 83, 99] ++ rest)
+      (by simp [hdrW, List.append_assoc]) rfl hx
+  have f8 : field (hdrW x ci yi ch ++ rest) 8 4 = [0, 0, 0, 0] :=
+    field_at (pre := [2, 1, 6, 0] ++ x) (post := ci ++ yi ++ zeros 8 ++ (ch ++ zeros 10) ++ zeros 192 ++ [99, 130, 83, 99] ++ rest)
+      (by simp [hdrW, List.append_assoc]) (by simp only [List.length_append, List.length_cons, List.length_nil, zeros, List.length_replicate, hx, hci, hyi, hch]) rfl
+  have f12 : field (hdrW x ci yi ch ++ rest) 12 4 = ci :=
+    field_at (pre := [2, 1, 6, 0] ++ x ++ [0, 0] ++ [0, 0]) (post := yi ++ zeros 8 ++ (ch ++ zeros 10) ++ zeros 192 ++ [99, 130, 83, 99] ++ rest)
+      (by simp [hdrW, List.append_assoc]) (by simp only [List.length_append, List.length_cons, List.length_nil, zeros, List.length_replicate, hx, hci, hyi, hch]) hci
+  have f16 : field (hdrW x ci yi ch ++ rest) 16 4 = yi :=
+    field_at (pre := [2, 1, 6, 0] ++ x ++ [0, 0] ++ [0, 0] ++ ci) (post := zeros 8 ++ (ch ++ zeros 10) ++ zeros 192 ++ [99, 130, 83, 99] ++ rest)
+      (by simp [hdrW, List.append_assoc]) (by simp only [List.length_append, List.length_cons, List.length_nil, zeros, List.length_replicate, hx, hci, hyi, hch]) hyi
+  have f20 : field (hdrW x ci yi ch ++ rest) 20 8 = zeros 8 :=
+    field_at (pre := [2, 1, 6, 0] ++ x ++ [0, 0] ++ [0, 0] ++ ci ++ yi) (post := (ch ++ zeros 10) ++ zeros 192 ++ [99, 130, 83, 99] ++ rest)
+      (by simp [hdrW, List.append_assoc]) (by simp only [List.length_append, List.length_cons, List.length_nil, zeros, List.length_replicate, hx, hci, hyi, hch]) (by simp only [List.length_append, List.length_cons, List.length_nil, zeros, List.length_replicate, hx, hci, hyi, hch])
+  have f28 : field (hdrW x ci yi ch ++ rest) 28 6 = ch :=
+    field_at (pre := [2, 1, 6, 0] ++ x ++ [0, 0] ++ [0, 0] ++ ci ++ yi ++ zeros 8) (post := zeros 10 ++ zeros 192 ++ [99, 130, 83, 99] ++ rest)
+      (by simp [hdrW, List.append_assoc]) (by simp only [List.length_append, List.length_cons, List.length_nil, zeros, List.length_replicate, hx, hci, hyi, hch]) hch
+  have f34 : field (hdrW x ci yi ch ++ rest) 34 10 = zeros 10 :=
+    field_at (pre := [2, 1, 6, 0] ++ x ++ [0, 0] ++ [0, 0] ++ ci ++ yi ++ zeros 8 ++ ch) (post := zeros 192 ++ [99, 130, 83, 99] ++ rest)
+      (by simp [hdrW, List.append_assoc]) (by simp only [List.length_append, List.length_cons, List.length_nil, zeros, List.length_replicate, hx, hci, hyi, hch]) (by simp only [List.length_append, List.length_cons, List.length_nil, zeros, List.length_replicate, hx, hci, hyi, hch])
+  have f44 : field (hdrW x ci yi ch ++ rest) 44 64 = zeros 64 :=
+    field_at (pre := [2, 1, 6, 0] ++ x ++ [0, 0] ++ [0, 0] ++ ci ++ yi ++ zeros 8 ++ ch ++ zeros 10) (post := zeros 128 ++ [99, 130, 83, 99] ++ rest)
+      (by rw [hdrW, show (192 : Nat) = 64 + 128 from rfl, zeros_add]; simp [List.append_assoc]) (by simp only [List.length_append, List.length_cons, List.length_nil, zeros, List.length_replicate, hx, hci, hyi, hch]) (by simp only [List.length_append, List.length_cons, List.length_nil, zeros, List.length_replicate, hx, hci, hyi, hch])
+  have f108 : field (hdrW x ci yi ch ++ rest) 108 128 = zeros 128 :=
+    field_at (pre := [2, 1, 6, 0] ++ x ++ [0, 0] ++ [0, 0] ++ ci ++ yi ++ zeros 8 ++ ch ++ zeros 10 ++ zeros 64) (post := [99, 130, 83, 99] ++ rest)
+      (by rw [hdrW, show (192 : Nat) = 64 + 128 from rfl, zeros_add]; simp [List.append_assoc]) (by simp only [List.length_append, List.length_cons, List.length_nil, zeros, List.length_replicate, hx, hci, hyi, hch]) (by simp only [List.length_append, List.length_cons, List.length_nil, zeros, List.length_replicate, hx, hci, hyi, hch])
+  have f236 : field (hdrW x ci yi ch ++ rest) 236 4 = magic :=
+    field_at (pre := [2, 1, 6, 0] ++ x ++ [0, 0] ++ [0, 0] ++ ci ++ yi ++ zeros 8 ++ (ch ++ zeros 10) ++ zeros 192) (post := rest)
+      (by simp [hdrW, magic, List.append_assoc]) (by simp only [List.length_append, List.length_cons, List.length_nil, zeros, List.length_replicate, hx, hci, hyi, hch]) rfl
+  have hz8 : ∀ i, at_ (zeros 8) i = 0 := by
+    intro i
+    unfold at_ zeros
+    by_cases hi : i < 8
+    · rw [List.getElem?_replicate_of_lt hi]; rfl
+    · rw [List.getElem?_eq_none (by simp; omega)]; rfl
+  unfold fixed u16 u32
+  rw [f4, f28, f34, f44, f108, f236]
+  rw [at_of_field f0 0 0 (by decide) rfl, at_of_field f0 1 1 (by decide) rfl, at_of_field f0 2 2 (by decide) rfl,
+    at_of_field f0 3 3 (by decide) rfl]
+  rw [at_of_field f8 0 8 (by decide) rfl, at_of_field f8 1 (8 + 1) (by decide) rfl, at_of_field f8 2 10 (by decide) rfl,
+    at_of_field f8 3 (10 + 1) (by decide) rfl]
+  rw [at_of_field f12 0 12 (by omega) rfl, at_of_field f12 1 (12 + 1) (by omega) rfl, at_of_field f12 2 (12 + 2) (by omega) rfl,
+    at_of_field f12 3 (12 + 3) (by omega) rfl]
+  rw [at_of_field f16 0 16 (by omega) rfl, at_of_field f16 1 (16 + 1) (by omega) rfl, at_of_field f16 2 (16 + 2) (by omega) rfl,
+    at_of_field f16 3 (16 + 3) (by omega) rfl]
+  rw [at_of_field f20 0 20 (by simp only [zeros, List.length_replicate]; omega) rfl, at_of_field f20 1 (20 + 1) (by simp only [zeros, List.length_replicate]; omega) rfl,
+    at_of_field f20 2 (20 + 2) (by simp only [zeros, List.length_replicate]; omega) rfl, at_of_field f20 3 (20 + 3) (by simp only [zeros, List.length_replicate]; omega) rfl,
+    at_of_field f20 4 24 (by simp only [zeros, List.length_replicate]; omega) rfl, at_of_field f20 5 (24 + 1) (by simp only [zeros, List.length_replicate]; omega) rfl,
+    at_of_field f20 6 (24 + 2) (by simp only [zeros, List.length_replicate]; omega) rfl, at_of_field f20 7 (24 + 3) (by simp only [zeros, List.length_replicate]; omega) rfl]
+  simp only [hz8]
+  rfl
+
+/-! ### the bytes of a reply -/
+
+theorem field_append_left (p s : Bytes) (k n : Nat) (h : k + n ≤ p.length) : ((p ++ s).drop k).take n = field p k n := by
+  unfold field
+  rw [List.drop_append_of_le_length (by omega), List.take_append_of_le_length (by rw [List.length_drop]; omega)]
+
+/-- ciaddr of the reply header: written (zero) for a NAK, the request's bytes 12..15 otherwise -/
+def ciW (p : Bytes) (r : Reply) : Bytes := if r.typ = .nak then ip4Bytes r.ciaddr else field p 12 4
+
+/-- **the packet `EncodeDHCP4` returns for a reply, spelled out**: the header with the request's transaction id and
+    hardware address, the option bytes, the end option, zero padding up to 300 bytes -/
+theorem replyBytes_eq (p spare : Bytes) (prl : Option Bytes) (r : Reply) (tail : List UInt8) (placed : Bytes) (pos : Nat)
+    (hp : 240 ≤ p.length) (hb : 300 ≤ (p ++ spare).length)
+    (happ : appendOptions (p ++ spare).length (optSet (wireOpts r) 53 [mtOf r.typ]) (replyArgs r prl).order tail = .ok (placed, pos))
+    (hpos : 240 + pos < (p ++ spare).length) :
+    replyBytes p spare prl r tail =
+      .ok (hdrW (field p 4 4) (ciW p r) (ip4Bytes r.yiaddr) (field p 28 6) ++ placed ++ [255]
+            ++ zeros (300 - (hdrW (field p 4 4) (ciW p r) (ip4Bytes r.yiaddr) (field p 28 6) ++ placed ++ [255]).length)) := by
+  unfold replyBytes encodeDHCP4
+  rw [if_neg (by omega)]
+  have happ' : appendOptions (p ++ spare).length (optSet (replyArgs r prl).opts 53 [(replyArgs r prl).mt]) (replyArgs r prl).order tail
+      = .ok (placed, pos) := happ
+  simp only []
+  rw [happ']
+  simp only [Outcome.bind_ok]
+  rw [if_neg (by omega)]
+  have e4 := field_append_left p spare 4 4 (by omega)
+  have e12 := field_append_left p spare 12 4 (by omega)
+  have e28 := field_append_left p spare 28 6 (by omega)
+  unfold hdrW ciW
+  by_cases hn : r.typ = .nak
+  · simp only [replyArgs, hn, if_true, e4, e28, Bool.false_eq_true, if_false]
+  · simp only [replyArgs, hn, if_false, e4, e12, e28, Bool.false_eq_true]
+
+/-! ### the reference reads the option area `AppendOptions` wrote -/
+
+open PV.Props.C03Dhcp (tlv flatten WF)
+
+theorem at_append_cons (pre : Bytes) (v : UInt8) (post : Bytes) : at_ (pre ++ v :: post) pre.length = v.toNat := by
+  unfold at_
+  rw [List.getElem?_append_right (Nat.le_refl _)]
+  simp
+
+theorem byteAt_append_cons (pre : Bytes) (v : UInt8) (post : Bytes) : byteAt (pre ++ v :: post) pre.length = v := by
+  unfold byteAt
+  rw [List.getElem?_append_right (Nat.le_refl _)]
+  simp
+
+/-- the reference walk over well-formed options followed by the end option yields exactly the options written, in
+    wire order, whatever precedes (`pre`: the header) and follows (`pad`) -/
+theorem tlvsAt_flatten : ∀ (seq : List (UInt8 × Bytes)) (pre pad : Bytes) (fuel : Nat), (∀ e, e ∈ seq → WF e) →
+    seq.length < fuel → tlvsAt (pre ++ flatten seq ++ 255 :: pad) fuel pre.length = some seq
+  | [], pre, pad, fuel, _, hf => by
+    cases fuel with
+    | zero => omega
+    | succ f =>
+      unfold tlvsAt
+      simp only [flatten, List.map_nil, List.flatten_nil, List.append_nil]
+      split
+      · rfl
+      · rw [at_append_cons]
+        rfl
+  | e :: seq, pre, pad, fuel, hw, hf => by
+    cases fuel with
+    | zero => omega
+    | succ f =>
+      obtain ⟨h0, h255, hl⟩ := hw e (List.mem_cons_self ..)
+      have hL : pre ++ flatten (e :: seq) ++ 255 :: pad
+          = pre ++ e.1 :: (UInt8.ofNat e.2.length :: (e.2 ++ (flatten seq ++ 255 :: pad))) := by
+        simp [flatten, tlv]
+      have hL1 : pre ++ flatten (e :: seq) ++ 255 :: pad
+          = (pre ++ [e.1]) ++ UInt8.ofNat e.2.length :: (e.2 ++ (flatten seq ++ 255 :: pad)) := by
+        simp [flatten, tlv]
+      have hL2 : pre ++ flatten (e :: seq) ++ 255 :: pad
+          = (pre ++ [e.1, UInt8.ofNat e.2.length]) ++ e.2 ++ (flatten seq ++ 255 :: pad) := by
+        simp [flatten, tlv]
+      have hL3 : pre ++ flatten (e :: seq) ++ 255 :: pad = (pre ++ tlv e) ++ flatten seq ++ 255 :: pad := by
+        simp [flatten, tlv]
+      have hk : at_ (pre ++ flatten (e :: seq) ++ 255 :: pad) pre.length = e.1.toNat := by rw [hL, at_append_cons]
+      have hb : byteAt (pre ++ flatten (e :: seq) ++ 255 :: pad) pre.length = e.1 := by rw [hL, byteAt_append_cons]
+      have hsz : at_ (pre ++ flatten (e :: seq) ++ 255 :: pad) (pre.length + 1) = e.2.length := by
+        have := at_append_cons (pre ++ [e.1]) (UInt8.ofNat e.2.length) (e.2 ++ (flatten seq ++ 255 :: pad))
+        rw [← hL1] at this
+        simp only [List.length_append, List.length_cons, List.length_nil] at this
+        rw [this, UInt8.toNat_ofNat']
+        omega
+      have hv : field (pre ++ flatten (e :: seq) ++ 255 :: pad) (pre.length + 2) e.2.length = e.2 :=
+        field_at hL2 (by simp) rfl
+      have hlen : (pre ++ flatten (e :: seq) ++ 255 :: pad).length = pre.length + 2 + e.2.length + ((flatten seq).length + 1 + pad.length) := by
+        rw [hL]
+        simp only [List.length_append, List.length_cons]
+        omega
+      have hne255 : ¬ e.1.toNat = 255 := fun h => h255 (UInt8.toNat_inj.1 h)
+      have hne0 : ¬ e.1.toNat = 0 := fun h => h0 (UInt8.toNat_inj.1 h)
+      unfold tlvsAt
+      rw [if_neg (by rw [hlen]; omega), hk, if_neg hne255, if_neg hne0, hsz, if_neg (by rw [hlen]; omega), hb, hv]
+      have ih := tlvsAt_flatten seq (pre ++ tlv e) pad f (fun x hx => hw x (List.mem_cons_of_mem _ hx)) (by simp at hf; omega)
+      rw [← hL3] at ih
+      have hpl : (pre ++ tlv e).length = pre.length + 2 + e.2.length := by simp [tlv]; omega
+      rw [hpl] at ih
+      rw [ih]
+      rfl
+
+/-! ### encodable replies -/
+
+/-- a reply the encoder can write and the reference can read back: option codes 1..254, values of at most 255 bytes,
+    each code once, and the message type option agrees with the reply type -/
+structure ReplyWF (r : Reply) : Prop where
+  codes : ∀ e, e ∈ r.opts → 0 < e.1 ∧ e.1 < 255 ∧ e.2.length ≤ 255
+  nodup : (r.opts.map (·.1)).Nodup
+  mtype : r.opts.lookup 53 = some [mtOf r.typ]
+
+theorem ofNat_eq_iff {k : Nat} (hk : k < 256) (c : UInt8) : UInt8.ofNat k = c ↔ c.toNat = k := by
+  constructor
+  · intro h; rw [← h, UInt8.toNat_ofNat']; omega
+  · intro h; apply UInt8.toNat_inj.1; rw [UInt8.toNat_ofNat', h]; omega
+
+theorem optGet_wire (l : List (Nat × Bytes)) (h : ∀ e, e ∈ l → e.1 < 256) (c : UInt8) :
+    optGet (l.map (fun e => (UInt8.ofNat e.1, e.2))) c = l.lookup c.toNat := by
+  induction l with
+  | nil => rfl
+  | cons e l ih =>
+    obtain ⟨k, v⟩ := e
+    have hk : k < 256 := h (k, v) (List.mem_cons_self ..)
+    rw [List.map_cons, PV.Lemmas.Dhcp4OptPerm.optGet_cons, List.lookup_cons,
+      ih (fun x hx => h x (List.mem_cons_of_mem _ hx))]
+    by_cases hc : c.toNat = k
+    · rw [if_pos ((ofNat_eq_iff hk c).2 hc)]
+      simp [hc]
+    · rw [if_neg (fun e => hc ((ofNat_eq_iff hk c).1 e))]
+      have : (c.toNat == k) = false := by simpa using hc
+      simp [this]
+
+theorem wire_keys_nodup (l : List (Nat × Bytes)) (h : ∀ e, e ∈ l → e.1 < 256) (hn : (l.map (·.1)).Nodup) :
+    ((l.map (fun e => (UInt8.ofNat e.1, e.2))).map (·.1)).Nodup := by
+  induction l with
+  | nil => simp
+  | cons e l ih =>
+    simp only [List.map_cons, List.nodup_cons] at hn ⊢
+    refine ⟨?_, ih (fun x hx => h x (List.mem_cons_of_mem _ hx)) hn.2⟩
+    intro hm
+    obtain ⟨x, hx, e1⟩ := List.mem_map.1 hm
+    obtain ⟨y, hy, e2⟩ := List.mem_map.1 hx
+    subst e2
+    have hy' := h y (List.mem_cons_of_mem _ hy)
+    have he' := h e (List.mem_cons_self ..)
+    have : y.1 = e.1 := by
+      have := (ofNat_eq_iff hy' (UInt8.ofNat e.1)).1 e1
+      rw [UInt8.toNat_ofNat'] at this
+      omega
+    exact hn.1 (List.mem_map.2 ⟨y, hy, this⟩)
+
+theorem wireOpts_nodup {r : Reply} (h : ReplyWF r) : ((wireOpts r).map (·.1)).Nodup :=
+  wire_keys_nodup r.opts (fun e he => by have := h.codes e he; omega) h.nodup
+
+theorem wireOpts_wf {r : Reply} (h : ReplyWF r) : ∀ e, e ∈ wireOpts r → WF e := by
+  intro e he
+  obtain ⟨x, hx, rfl⟩ := List.mem_map.1 he
+  obtain ⟨h0, h255, hl⟩ := h.codes x hx
+  refine ⟨?_, ?_, hl⟩
+  · intro e0
+    have := (ofNat_eq_iff (by omega : x.1 < 256) 0).1 e0
+    simp at this
+    omega
+  · intro e0
+    have := (ofNat_eq_iff (by omega : x.1 < 256) 255).1 e0
+    simp at this
+    omega
+
+theorem optGet_wireOpts {r : Reply} (h : ReplyWF r) (c : UInt8) : optGet (wireOpts r) c = r.opts.lookup c.toNat :=
+  optGet_wire r.opts (fun e he => by have := h.codes e he; omega) c
+
+/-- the encoder's own message type option changes nothing: the reply map already holds it -/
+theorem optSet53_perm {r : Reply} (h : ReplyWF r) : (optSet (wireOpts r) 53 [mtOf r.typ]).Perm (wireOpts r) := by
+  apply PV.Lemmas.Dhcp4OptPerm.perm_of_optGet (PV.Lemmas.Dhcp4OptPerm.nodup_optSet (wireOpts_nodup h) _ _) (wireOpts_nodup h)
+  intro c
+  rw [optGet_optSet]
+  by_cases hc : c = 53
+  · subst hc
+    rw [if_pos rfl, optGet_wireOpts h]
+    exact h.mtype.symm
+  · rw [if_neg hc]
+
+theorem flatten_wireOpts (r : Reply) : (flatten (wireOpts r)).length = optsLen r.opts := by
+  rw [PV.Props.C03Dhcp.flatten_length]
+  unfold wireOpts optsLen
+  rw [List.map_map]
+  rfl
+
+theorem length_le_flatten (s : List (UInt8 × Bytes)) : s.length ≤ (flatten s).length := by
+  induction s with
+  | nil => simp
+  | cons e s ih => simp [flatten, tlv] at ih ⊢; omega
+
+theorem lastOf_eq_optGet (l : List (UInt8 × Bytes)) (c : UInt8) : lastOf l c = optGet l.reverse c := rfl
+
+/-- the header the reference must find in the reply to request `p` -/
+def replyFixed (p : Bytes) (r : Reply) : Fixed :=
+  { op := 2, htype := 1, hlen := 6, hops := 0, xid := field p 4 4, secs := 0, flags := 0,
+    ciaddr := be4of (ciW p r), yiaddr := be4of (ip4Bytes r.yiaddr), siaddr := 0, giaddr := 0,
+    chaddr := field p 28 6, chpad := zeros 10, sname := zeros 64, file := zeros 128, cookie := magic }
+
+/-- **encode, then read with the reference**: for an encodable reply that fits the buffer, `EncodeDHCP4` over the
+    request returns a packet of 300 bytes or more inside the buffer, the reference reads it, finds the header
+    `replyFixed`, the options exactly in the order `AppendOptions` emits them, each once, and every option has the
+    value the abstract reply records -/
+theorem reply_wire (p spare : Bytes) (prl : Option Bytes) (r : Reply) (tail : List UInt8) (hwf : ReplyWF r)
+    (hp : 240 ≤ p.length) (hcap : 300 ≤ (p ++ spare).length) (hroom : 240 + optsLen r.opts < (p ++ spare).length)
+    (hsz : optsLen r.opts ≤ 1024) (ht : tail.Nodup)
+    (hc : ∀ e, e ∈ (orderedPhase (fullOrder (replyArgs r prl).order) (optSet (wireOpts r) 53 [mtOf r.typ])).2 → e.1 ∈ tail) :
+    ∃ bytes w, replyBytes p spare prl r tail = .ok bytes ∧ 300 ≤ bytes.length ∧ bytes.length ≤ (p ++ spare).length ∧
+      Dhcp4Wire.read bytes = some w ∧ w.fx = replyFixed p r ∧
+      w.opts = emitSeq (optSet (wireOpts r) 53 [mtOf r.typ]) (replyArgs r prl).order tail ∧
+      w.opts.Perm (wireOpts r) ∧ (∀ c, w.opt c = r.opts.lookup c.toNat) := by
+  have hnM := PV.Lemmas.Dhcp4OptPerm.nodup_optSet (wireOpts_nodup hwf) 53 [mtOf r.typ]
+  have hperm := PV.Props.C03Dhcp.emitSeq_perm _ (replyArgs r prl).order tail hnM ht hc
+  have hpermW := hperm.trans (optSet53_perm hwf)
+  have hl : (flatten (emitSeq (optSet (wireOpts r) 53 [mtOf r.typ]) (replyArgs r prl).order tail)).length = optsLen r.opts := by
+    rw [PV.Props.C03Dhcp.flatten_length_perm hpermW, flatten_wireOpts]
+  have happ := PV.Props.C03Dhcp.appendOptions_ok (p ++ spare).length _ (replyArgs r prl).order tail (by omega)
+    (by rw [hl]; exact hsz) (by rw [hl]; omega)
+  have hb := replyBytes_eq p spare prl r tail _ _ hp hcap happ (by rw [hl]; exact hroom)
+  have hx : (field p 4 4).length = 4 := PV.Lemmas.field_length p 4 4 (by omega)
+  have hch : (field p 28 6).length = 6 := PV.Lemmas.field_length p 28 6 (by omega)
+  have hyi : (ip4Bytes r.yiaddr).length = 4 := rfl
+  have hci : (ciW p r).length = 4 := by
+    unfold ciW
+    split
+    · rfl
+    · exact PV.Lemmas.field_length p 12 4 (by omega)
+  have hH := hdrW_length (field p 4 4) (ciW p r) (ip4Bytes r.yiaddr) (field p 28 6) hx hci hyi hch
+  generalize hseq : emitSeq (optSet (wireOpts r) 53 [mtOf r.typ]) (replyArgs r prl).order tail = seq at *
+  generalize hHd : hdrW (field p 4 4) (ciW p r) (ip4Bytes r.yiaddr) (field p 28 6) = H at *
+  have hblen : (H ++ flatten seq ++ [255]).length = 240 + optsLen r.opts + 1 := by
+    simp only [List.length_append, hH, hl, List.length_cons, List.length_nil]
+  rw [hblen] at hb
+  generalize hk : 300 - (240 + optsLen r.opts + 1) = k at *
+  have hre : H ++ flatten seq ++ [255] ++ zeros k = H ++ flatten seq ++ 255 :: zeros k := by simp
+  rw [hre] at hb
+  have htot : (H ++ flatten seq ++ 255 :: zeros k).length = 240 + optsLen r.opts + 1 + k := by
+    simp only [List.length_append, hH, hl, List.length_cons, zeros, List.length_replicate]
+    omega
+  have hwfs : ∀ e, e ∈ seq → WF e := fun e he => wireOpts_wf hwf e (hpermW.mem_iff.1 he)
+  have hopts : options (H ++ flatten seq ++ 255 :: zeros k) = some seq := by
+    unfold options
+    rw [← hH]
+    apply tlvsAt_flatten seq H (zeros k) _ hwfs
+    rw [htot, hH]
+    have := length_le_flatten seq
+    omega
+  have hrev : seq.reverse.Perm (wireOpts r) := (List.reverse_perm _).trans hpermW
+  have hnrev : ((seq.reverse).map (·.1)).Nodup := (hrev.map _).nodup_iff.2 (wireOpts_nodup hwf)
+  refine ⟨_, ⟨fixed (H ++ flatten seq ++ 255 :: zeros k), seq⟩, hb, by rw [htot]; omega, by rw [htot]; omega, ?_, ?_, rfl, hpermW, ?_⟩
+  · unfold Dhcp4Wire.read
+    rw [if_neg (by rw [htot]; omega), hopts]
+  · show fixed (H ++ flatten seq ++ 255 :: zeros k) = replyFixed p r
+    rw [List.append_assoc, ← hHd, fixed_hdrW _ _ _ _ _ hx hci hyi hch]
+    rfl
+  · intro c
+    show lastOf seq c = _
+    rw [lastOf_eq_optGet, PV.Lemmas.Dhcp4OptPerm.optGet_perm hrev hnrev c, optGet_wireOpts hwf]
+
+/-! ### the replies of the server handlers are encodable -/
+
+theorem mkReply_wf (cfg : Dhcp4Srv.Cfg) (m : Msg) (t : RType) (l : Lease) (a : Option IP) (ht : t ≠ .nak) :
+    ReplyWF (mkReply cfg m t l a) ∧ optsLen (mkReply cfg m t l a).opts ≤ 53 := by
+  refine ⟨⟨?_, ?_, ?_⟩, ?_⟩
+  · intro e he
+    unfold mkReply replyOpts at he
+    cases hs : l.sub <;> rw [hs] at he <;> simp only [List.append_nil, List.cons_append, List.nil_append, List.mem_cons, List.not_mem_nil, or_false] at he <;>
+      rcases he with rfl | rfl | rfl | rfl | rfl | rfl | rfl | rfl | rfl <;> simp [maskBytes, ip4Bytes] <;>
+      rcases he with rfl | rfl | rfl | rfl | rfl | rfl <;> simp [maskBytes, ip4Bytes]
+  · unfold mkReply replyOpts
+    cases l.sub <;> simp
+  · unfold mkReply replyOpts
+    cases l.sub <;> cases t <;> first | exact absurd rfl ht | simp [List.lookup, mtOf]
+  · unfold mkReply replyOpts optsLen
+    cases l.sub <;> simp [maskBytes, ip4Bytes]
+
+theorem nakReply_wf (m : Msg) (srv : IP) (c : Cid) (hc : c.length ≤ 255) :
+    ReplyWF (nakReply m srv c) ∧ optsLen (nakReply m srv c).opts ≤ 266 := by
+  refine ⟨⟨?_, by simp [nakReply], by simp [nakReply, mtOf]⟩, ?_⟩
+  · intro e he
+    simp only [nakReply, List.mem_cons, List.not_mem_nil, or_false] at he
+    rcases he with rfl | rfl | rfl <;> simp [ip4Bytes, hc]
+  · simp [nakReply, optsLen, ip4Bytes]
+    omega
+
+/-- every reply of a message handler: an encodable OFFER / ACK built by `mkReply`, or a NAK built by `nakPacket`,
+    echoing the request's transaction id and hardware address -/
+theorem handleMsg_reply {cfg : Dhcp4Srv.Cfg} {s : State} {op : Op} {m : Msg} (hm : Props.C11.msgOf op = some m) {r : Reply}
+    (hr : r ∈ (handleMsg cfg s op).2) :
+    r.xid = m.xid ∧ r.chaddr = m.chaddr ∧
+      ((r.typ ≠ .nak ∧ r.ciaddr = m.ciaddr ∧ ∃ l a, r = mkReply cfg m r.typ l a)
+        ∨ (r.typ = .nak ∧ r.ciaddr = 0 ∧ r.yiaddr = 0 ∧ ∃ srv, r = nakReply m srv (clientId m))) := by
+  cases op with
+  | discover now m' =>
+    simp only [Props.C11.msgOf, Option.some.injEq] at hm; subst hm
+    simp only [handleMsg] at hr
+    rcases PV.Lemmas.Dhcp4Srv.discover_outcome cfg s now m' with ⟨cur, e⟩ | ⟨s1, ip, _, _, _, e, _⟩ <;> rw [e] at hr
+    · cases hr
+    · simp only [List.mem_singleton] at hr
+      subst hr
+      exact ⟨rfl, rfl, Or.inl ⟨by simp [mkReply], rfl, _, _, rfl⟩⟩
+  | request now m' =>
+    simp only [Props.C11.msgOf, Option.some.injEq] at hm; subst hm
+    simp only [handleMsg] at hr
+    rcases Props.C12.request_replies cfg s now m' with e | ⟨srv, e⟩ | ⟨_, _, e⟩ <;> rw [e] at hr
+    · cases hr
+    · simp only [List.mem_singleton] at hr
+      subst hr
+      exact ⟨rfl, rfl, Or.inr ⟨rfl, rfl, rfl, srv, rfl⟩⟩
+    · rw [PV.Lemmas.Dhcp4Srv.ackLease_eq] at hr
+      simp only [List.mem_singleton] at hr
+      subst hr
+      exact ⟨rfl, rfl, Or.inl ⟨by simp [mkReply], rfl, _, _, rfl⟩⟩
+  | decline m' =>
+    simp only [handleMsg] at hr
+    rcases PV.Lemmas.Dhcp4Srv.decline_outcome cfg s m' with e | e <;> rw [e] at hr <;> cases hr
+  | release m' =>
+    simp only [handleMsg, release] at hr
+    cases hr
+  | minuteTick _ => cases hm
+  | capture _ => cases hm
+  | releaseCapture _ => cases hm
+  | hostSeen _ _ => cases hm
+  | hostGone _ => cases hm
+
+/-- the client identifier of a message read off a payload is at most 255 bytes long (option 61 as parsed, or the
+    six bytes of the hardware address) -/
+theorem clientId_msgRef_len (rx : Rx) (p : Bytes) (o : Opts) (hp : 240 ≤ p.length) (ho : parseOptions p = .ok o) :
+    (clientId (msgRef rx p o)).length ≤ 255 := by
+  have h6 : (field p 28 6).length = 6 := PV.Lemmas.field_length p 28 6 (by omega)
+  unfold clientId msgRef
+  simp only []
+  cases hc : optGet o 61 with
+  | none => simp only []; omega
+  | some c =>
+    simp only []
+    split
+    · omega
+    · exact (PV.Props.C03Dhcp.roundtrip_needs_wf p o o ho (List.Perm.refl _) _ (PV.Lemmas.Dhcp4OptPerm.optGet_mem hc)).2.2
+
 end PV.Lemmas.Dhcp4Wire
